@@ -306,6 +306,127 @@ fn construct(c: &ValCase, t: &mut Tally) -> Option<Vec<AnyUri>> {
     Some(v)
 }
 
+/// Percent-encode every byte that is not an RFC 3986 unreserved character.
+fn pct_all(s: &str) -> String {
+    let mut o = String::new();
+    for b in s.bytes() {
+        if b.is_ascii_alphanumeric() || matches!(b, b'-' | b'.' | b'_' | b'~') {
+            o.push(b as char);
+        } else {
+            o.push_str(&format!("%{b:02X}"));
+        }
+    }
+    o
+}
+
+/// Reference formatter written from the spec (matrix.to navigation / `matrix:` URI scheme): the URI
+/// of the value with *every* reserved character of every component percent-encoded. Any conforming
+/// producer may emit this text, so the parser must read it back to exactly the value.
+fn ref_text(c: &ValCase, action: Option<&str>) -> String {
+    let mut q: Vec<String> = c.via.iter().map(|v| format!("via={}", pct_all(v))).collect();
+    match c.which {
+        Which::To => {
+            let mut t = format!("{TO_BASE}{}", pct_all(&c.id));
+            if let Some(e) = &c.event {
+                t.push('/');
+                t.push_str(&pct_all(e));
+            }
+            if !q.is_empty() {
+                t.push('?');
+                t.push_str(&q.join("&"));
+            }
+            t
+        }
+        Which::Matrix => {
+            let ty = match c.kind {
+                "user" => "u",
+                "room" => "roomid",
+                _ => "r",
+            };
+            let mut t = format!("matrix:{ty}/{}", pct_all(&c.id[1..]));
+            if let Some(e) = &c.event {
+                t.push_str("/e/");
+                t.push_str(&pct_all(&e[1..]));
+            }
+            if let Some(a) = action {
+                q.push(format!("action={}", pct_all(a)));
+            }
+            if !q.is_empty() {
+                t.push('?');
+                t.push_str(&q.join("&"));
+            }
+            t
+        }
+    }
+}
+
+/// `parse(ref_text(value)) == value`: an oracle that does not depend on ruma's own formatter.
+fn check_ref_text(c: &ValCase, built: &AnyUri, t: &mut Tally, out: &mut Viol) {
+    let action = match (c.which, c.event.is_some(), c.flag, c.kind) {
+        (Which::Matrix, false, true, "user") => Some("chat"),
+        (Which::Matrix, false, true, _) => Some("join"),
+        _ => None,
+    };
+    let text = ref_text(c, action);
+    t.transitions += 1;
+    let class = char_class(&c.id);
+    match catch(|| AnyUri::parse(c.which, &text)) {
+        Err(p) => out.push((format!("panic/{}/parse-ref-text", p.file()), format!("{}: {}", show(&text), p.text))),
+        Ok(Err(e)) => {
+            // a sigil-only last identifier gives a text that ends in an empty path segment: the
+            // recorded finding of the round-trip check, same cause, same signature
+            let sig = if c.which == Which::Matrix && empty_last_segment(built.id()) {
+                "roundtrip/MatrixUri/constructed/parse-error/empty-last-segment".to_owned()
+            } else {
+                format!("ref-text-rejected/{}/{}/{class}", c.which.name(), c.kind)
+            };
+            out.push((sig, format!("fully percent-encoded URI {} of {c:?} is rejected: {e}", show(&text))));
+        }
+        Ok(Ok(v)) => {
+            t.outcome("ref-text", "parsed");
+            if v != *built {
+                out.push((
+                    format!("ref-text-misparsed/{}/{}/{class}", c.which.name(), c.kind),
+                    format!("fully percent-encoded URI {} parses to {v:?}, expected {built:?}", show(&text)),
+                ));
+            }
+        }
+    }
+}
+
+/// Custom actions can only be obtained by parsing: the reference text with the encoded action must
+/// parse to a URI whose action is exactly that string.
+fn eval_custom_action(action: &str, t: &mut Tally) -> Viol {
+    let mut out = vec![];
+    for (kind, id, event) in [("user", "@a:x", None), ("room", "!r:x", Some("$e:x"))] {
+        let c = ValCase { which: Which::Matrix, kind, id: id.to_owned(), event: event.map(str::to_owned), via: vec!["v.org".to_owned()], flag: false };
+        let text = ref_text(&c, Some(action));
+        t.states += 1;
+        t.transitions += 1;
+        match catch(|| MatrixUri::parse(&text)) {
+            Err(p) => out.push((format!("panic/{}/parse-custom-action", p.file()), format!("{}: {}", show(&text), p.text))),
+            Ok(Err(e)) => out.push((format!("custom-action/rejected/{}", char_class(action)), format!("{} rejected: {e}", show(&text)))),
+            Ok(Ok(u)) => {
+                t.outcome("custom-action", "parsed");
+                t.nontrivial += 1;
+                let got = u.action().map(|a| a.as_str().to_owned());
+                let want_id = match event {
+                    Some(e) => format!("{id} {e}"),
+                    None => id.to_owned(),
+                };
+                if got.as_deref() != Some(action) || id_text(u.id()) != want_id {
+                    out.push((
+                        format!("custom-action/value-changed/{}", char_class(action)),
+                        format!("{} parses to action {got:?}, expected {action:?}", show(&text)),
+                    ));
+                }
+                roundtrip(Which::Matrix, "parsed-custom-action", &AnyUri::Matrix(u), t, &mut out);
+            }
+        }
+    }
+    out
+}
+
 fn eval_value(c: &ValCase, t: &mut Tally) -> Viol {
     let mut out = vec![];
     let built = match catch(|| construct(c, t)) {
@@ -325,6 +446,7 @@ fn eval_value(c: &ValCase, t: &mut Tally) -> Viol {
     }
     t.nontrivial += 1;
     roundtrip(c.which, "constructed", &built[0], t, &mut out);
+    check_ref_text(c, &built[0], t, &mut out);
     out
 }
 
@@ -555,6 +677,20 @@ fn main() {
         });
     });
     report.set("family_a_localparts", json!(lps.len()));
+
+    // (a2) custom actions through the reference text
+    let custom_alphabet = ["a", "&", "=", "%", "#", "+", " ", "é", "4", "1", "2", "5", "/", "?"];
+    let customs = all_strings(&custom_alphabet, if args.tier.is_thorough() { 4 } else { 3 });
+    par_shards(&report, customs.len().div_ceil(64), |i, t| {
+        for a in &customs[i * 64..((i + 1) * 64).min(customs.len())] {
+            if a.is_empty() || a == "join" || a == "chat" {
+                continue;
+            }
+            let v = eval_custom_action(a, t);
+            emit(&|| json!({"custom_action": a}), v);
+        }
+    });
+    report.set("family_a2_custom_actions", json!(customs.len()));
 
     // (b) values reachable only by parsing
     let mut texts: BTreeSet<(u8, String)> = BTreeSet::new();
